@@ -309,6 +309,19 @@ def build_whole(case, store_dir=None):
     rng = random.Random(cfg['seed'])
     T, F = cfg['T'], cfg['F']
     sensors = {SENSOR: [(-2.0, 16.0), (0.75, 17.5), (T / 2.0, 12.25), (T + 1.5, 20.0)]}
+    # F-engine delay tracking of one input (ADC sample count, delay, delay rate, phase, phase rate), updated every 2.5
+    # dumps with a model that is not a straight line: the source of the applied_delay / applied_phase sensors
+    scale = 1712000000.0
+    t0 = cfg['sync'] + cfg['first']
+    upd = []
+    k = -1.5
+    while k < T + 3:
+        t = t0 + k * cfg['int']
+        x = k * cfg['int']
+        upd.append((k - 0.4, (int(round((t - cfg['sync']) * scale)), 1e-9 * (3.0 + 0.05 * x + 0.004 * x * x),
+                              1e-9 * (0.05 + 0.008 * x), 0.1 + 0.03 * x - 0.002 * x * x, 0.03 - 0.004 * x)))
+        k += 2.5
+    sensors['i0_antenna_channelised_voltage_m000h_delay'] = upd
     syn = v4synth.make_v4(rng, T=T, F=F, n_ants=cfg['n_ants'], sync_time=cfg['sync'], first_timestamp=cfg['first'],
                           int_time=cfg['int'], center_freq=cfg['centre'], bandwidth=F * cfg['width'],
                           sub_product=cfg['product'], sub_pool_resources=cfg['resources'],
@@ -372,6 +385,11 @@ def snapshot(d, syn, with_meta):
     out['bflags'] = np.asarray(d.flags[:])
     out['weights'] = np.asarray(d.weights[:])
     out['sensor'] = np.asarray(d.sensor[SENSOR], dtype=float)
+    try:
+        out['delay'] = np.asarray(d.sensor['Correlator/Inputs/m000h/applied_delay'], dtype=float) * 1e9
+        out['phase'] = np.asarray(d.sensor['Correlator/Inputs/m000h/applied_phase'], dtype=float)
+    except KeyError:
+        out['delay'] = out['phase'] = None         # no CBF attributes in this configuration
     if with_meta:
         out['off'] = Fraction(float(d.time_offset))
         out['start'] = Fraction(float(d.start_time.secs))
@@ -543,6 +561,15 @@ def judge_open(ctx, case, mrep, srep, vrep, res):
     if P['sensor'].shape != W['sensor'].shape or not np.allclose(P['sensor'], W['sensor'], rtol=1e-9, atol=1e-9,
                                                                   equal_nan=True):
         return f"sensor values with preselect {P['sensor'][:4]} differ from whole+select {W['sensor'][:4]}"
+    if P['delay'] is not None:
+        ctx.tag('applied-delay-sensor-compared')
+    for key in ('delay', 'phase'):
+        if (P[key] is None) != (W[key] is None):
+            return f'the applied_{key} sensor exists only with / only without the preselect'
+        if P[key] is not None and (P[key].shape != W[key].shape or not np.allclose(P[key], W[key], rtol=1e-9, atol=1e-9,
+                                                                                  equal_nan=True)):
+            return (f'applied_{key} of m000h with preselect {P[key][-3:]} differs from whole+select {W[key][-3:]} '
+                    f'(last dumps)')
     # --- mirror model should track the implementation exactly
     if isinstance(mirror, tuple) or mirror['ts'] != P['ts'] or mirror['freqs'] != P['freqs'] or \
             mirror['off'] != meta['off'] or mirror['start'] != meta['start'] or mirror['end'] != meta['end']:
